@@ -111,8 +111,11 @@ def template_names(ta):
 def setup_env(srv, rng):
     env = {}
     a = ('alice', None)
-    env['sym'] = store.register(srv, 'sym', 'alice', rng, state='active', names=['c19-sym'], value=bytes(range(32)))
-    env['sympre'] = store.register(srv, 'sym', 'alice', rng, state='pre', names=['c19-sympre'])
+    env['sym'] = store.register(srv, 'sym', 'alice', rng, state='active', names=['c19-sym', 'c19-sym-second', 'c19-sym-third'],
+                                groups=['c19-g1', 'c19-g2'], asi=[('c19-ns', 'c19-d1'), ('c19-ns', 'c19-d2')], value=bytes(range(32)))
+    env['sympre'] = store.register(srv, 'sym', 'alice', rng, state='pre', names=['c19-sympre', 'c19-sympre-2'], groups=['c19-g1'])
+    env['wrapper'] = store.register(srv, 'sym', 'alice', rng, state='active', masks=[M.WRAP_KEY, M.ENCRYPT], names=['c19-wrapper'],
+                                    value=bytes(range(16)))
     env['secret'] = store.register(srv, 'secret', 'alice', rng, state='active', names=['c19-secret'])
     env['opaque'] = store.register(srv, 'opaque', 'alice', rng, names=['c19-opaque'])
     env['cert'] = store.register(srv, 'cert', 'alice', rng, names=['c19-cert'])
@@ -244,8 +247,22 @@ def calls(rng, env, version):
         got = [a.attribute_name.value for a in attrs_]
         if uid != first(p, T.T_UNIQUE_IDENTIFIER) or got != names:
             return 'returned (%r, %r), payload (%r, %r)' % (uid, got, first(p, T.T_UNIQUE_IDENTIFIER), names)
+        # every instance with its index and value, as carried: the returned Attribute objects re-encoded
+        from kmip.core import utils as cutils
+        want_items = [k for k in T.kids(p, 0x420008)]
+        for a, w in zip(attrs_, want_items):
+            st = cutils.BytearrayStream()
+            try:
+                a.write(st, kmip_version=version)
+                enc = T.decode(bytes(st.buffer), strict=False)
+            except Exception as e:
+                return 'returned attribute %s cannot be re-encoded (%s)' % (a.attribute_name.value, e)
+            if T.kid(enc, 0x42000B) != T.kid(w, 0x42000B) or (T.val(enc, 0x420009) or 0) != (T.val(w, 0x420009) or 0):
+                return 'attribute %s: returned %r, the response carries %r' % (a.attribute_name.value, enc[2][1:], w[2][1:])
         return None
-    out.append(('get_attributes', lambda c: c.get_attributes(uid_any, rng.choice((None, ['Name', 'State'], ['Object Type']))), ga_check))
+    out.append(('get_attributes', lambda c: c.get_attributes(rng.choice((uid_any, env['sym'].uid, env['sympre'].uid)), rng.choice((
+        None, ['Name', 'State'], ['Object Type'], ['Name'], ['Object Group', 'Name'], ['Application Specific Information'],
+        ['State', 'Name', 'Object Group', 'Application Specific Information', 'Cryptographic Usage Mask']))), ga_check))
     out.append(('get_attribute_list', lambda c: c.get_attribute_list(uid_any),
                 lambda res, p: None if sorted(res) == sorted(
                     [it[2] for _, it in T.walk(p) if it[0] == 0x42000A and it[1] == T.TEXT] or
@@ -277,6 +294,53 @@ def calls(rng, env, version):
                                                       'derivation_data': b'dd'},
                                                      cryptographic_length=128, cryptographic_algorithm=CA.AES,
                                                      cryptographic_usage_mask=[M.ENCRYPT]), uid_is))
+    # calls whose every argument has to arrive in the right field of the request (checked on the wire request)
+    def req_payload(req):
+        for _, it in T.walk(T.decode(req, strict=False)):
+            if it[0] == 0x420079:
+                return it
+        return None
+    mx, off, ssm = rng.choice((None, 1, 3, 50)), rng.choice((None, 0, 1, 2)), rng.choice((None, 1, 2, 3))
+    ogm = rng.choice((None, E.ObjectGroupMember.GROUP_MEMBER_FRESH, E.ObjectGroupMember.GROUP_MEMBER_DEFAULT))
+    flt = rng.choice((None, [rig.attr(E.AttributeType.OBJECT_TYPE, E.ObjectType.SYMMETRIC_KEY)],
+                      [rig.attr(E.AttributeType.NAME, name_value('c19-sym')), rig.attr(E.AttributeType.OBJECT_GROUP, 'c19-g1')]))
+
+    def locate_req(req):
+        p_ = req_payload(req)
+        got = (T.val(p_, 0x42004F), T.val(p_, 0x4200D4) if version >= E.KMIPVersion.KMIP_1_3 else off, T.val(p_, 0x42008E), T.val(p_, 0x4200AC))
+        want = (mx, off, ssm, ogm.value if ogm else None)
+        return None if got == want else 'request carries (maximum, offset, storage status mask, group member) = %r for arguments %r' % (got, want)
+    out.append(('locate_args', lambda c: c.locate(maximum_items=mx, offset_items=off, storage_status_mask=ssm, object_group_member=ogm, attributes=flt),
+                lambda res, p: None if list(res) == [k[2] for k in T.kids(p, T.T_UNIQUE_IDENTIFIER)] else
+                'returned %r, payload %r' % (res, [k[2] for k in T.kids(p, T.T_UNIQUE_IDENTIFIER)]), None, locate_req))
+    rcode, rmsg, rdate = rng.choice(list(E.RevocationReasonCode)), rng.choice((None, '', 'why')), rng.choice((None, 0, 1500000000))
+    ruid = rng.choice((env['sympre'].uid, '99999'))
+
+    def revoke_req(req):
+        p_ = req_payload(req)
+        rr = T.kid(p_, 0x420081)
+        got = (T.val(p_, T.T_UNIQUE_IDENTIFIER), T.val(rr, 0x420082) if rr else None, T.val(rr, 0x420080) if rr else None, T.val(p_, 0x420021))
+        want = (ruid, rcode.value, rmsg, rdate)
+        # (an empty message and a zero date are values too; the library leaves out what is None)
+        return None if got == want else 'request carries (identifier, reason code, message, compromise date) = %r for arguments %r' % (got, want)
+    out.append(('revoke_args', lambda c: c.revoke(rcode, ruid, rmsg, rdate), lambda res, p: None if res is None else 'returned %r' % (res,), None, revoke_req))
+    wuid = env['wrapper'].uid
+    wspec = {'wrapping_method': E.WrappingMethod.ENCRYPT,
+             'encryption_key_information': {'unique_identifier': wuid, 'cryptographic_parameters': {
+                 'block_cipher_mode': E.BlockCipherMode.NIST_KEY_WRAP}},
+             'encoding_option': E.EncodingOption.NO_ENCODING}
+
+    def wrapspec_req(req):
+        p_ = req_payload(req)
+        ks = T.kid(p_, 0x420047)
+        if ks is None:
+            return 'the request carries no key wrapping specification'
+        eki = T.kid(ks, 0x420036)
+        cp_ = T.kid(eki, 0x42002B) if eki else None
+        got = (T.val(ks, 0x42009E), T.val(eki, T.T_UNIQUE_IDENTIFIER) if eki else None, T.val(cp_, 0x420011) if cp_ else None, T.val(ks, 0x4200A3))
+        want = (E.WrappingMethod.ENCRYPT.value, wuid, E.BlockCipherMode.NIST_KEY_WRAP.value, E.EncodingOption.NO_ENCODING.value)
+        return None if got == want else 'key wrapping specification in the request: %r, arguments: %r' % (got, want)
+    out.append(('get_with_wrapping_specification', lambda c: c.get(env['sympre'].uid, key_wrapping_specification=wspec), get_check, None, wrapspec_req))
     # KMIPProxy-level operations return result objects instead of raising
     qf = rng.sample(list(E.QueryFunction)[:6], rng.randrange(1, 4))
     out.append(('proxy.query', lambda c: c.proxy.query(query_functions=[QueryFunctionPrim(f) for f in qf]),
@@ -314,13 +378,31 @@ def calls(rng, env, version):
                     lambda res, p: None if (res.get('unique_identifier'), template_names(res.get('template_attribute'))) == (u1, [n1])
                     else 'returned %r' % ({k_: (template_names(v_) if k_ == 'template_attribute' else v_) for k_, v_ in res.items()},),
                     rk_payload))
-    lease, count = rng.randrange(1, 10 ** 6), rng.randrange(1, 10 ** 6)
-    ck_payload = [(T.T_UNIQUE_IDENTIFIER, T.TEXT, u2), (0x420096, T.LONG, count), (0x42002C, T.INTEGER, 12), (0x420049, T.INTERVAL, lease)]
+        roff, rdates = rng.choice((None, 0, 60)), rng.choice(({}, {'activation_date': 1500000000}, {'deactivation_date': 1600000000, 'process_start_date': 1}))
+
+        def rekey_req(req):
+            p_ = req_payload(req)
+            got = (T.val(p_, T.T_UNIQUE_IDENTIFIER), T.val(p_, 0x420058))
+            want = (env['sym'].uid, roff)
+            names_ = sorted(it[2] for _, it in T.walk(p_) if it[0] == 0x42000A)
+            wantn = sorted({'activation_date': 'Activation Date', 'deactivation_date': 'Deactivation Date',
+                            'process_start_date': 'Process Start Date'}[k_] for k_ in rdates)
+            return None if (got == want and names_ == wantn) else 'request carries %r / %r for arguments %r / %r' % (got, names_, want, wantn)
+        out.append(('rekey', lambda c: c.rekey(uid=env['sym'].uid, offset=roff, **rdates),
+                    lambda res, p: None if res == u1 else 'returned %r, the response carries %r' % (res, u1), rk_payload, rekey_req))
+    out.append(('check', lambda c: c.check(uid=env['sym'].uid, usage_limits_count=5, cryptographic_usage_mask=[M.ENCRYPT], lease_time=7),
+                lambda res, p: None if res == u2 else 'returned %r, the response carries %r' % (res, u2),
+                [(T.T_UNIQUE_IDENTIFIER, T.TEXT, u2), (0x420096, T.LONG, 3)]))
+    # zero is a value: no uses left, no lease, an empty mask
+    lease, count = rng.choice((0, rng.randrange(1, 10 ** 6))), rng.choice((0, rng.randrange(1, 10 ** 6)))
+    ck_mask = rng.choice((12, 12, 0))
+    ck_payload = [(T.T_UNIQUE_IDENTIFIER, T.TEXT, u2), (0x420096, T.LONG, count), (0x42002C, T.INTEGER, ck_mask), (0x420049, T.INTERVAL, lease)]
     out.append(('proxy.check', lambda c: c.proxy.check(uuid=env['sym'].uid, usage_limits_count=1, cryptographic_usage_mask=[M.ENCRYPT],
                                                        lease_time=1),
                 lambda res, p: None if (res.get('unique_identifier'), res.get('usage_limits_count'),
-                                        sorted(m_.value for m_ in res.get('cryptographic_usage_mask', [])), res.get('lease_time')) ==
-                (u2, count, [4, 8], lease) else 'returned %r, the response carries %r' % (res, (u2, count, 12, lease)), ck_payload))
+                                        sorted(m_.value for m_ in res['cryptographic_usage_mask']) if res.get('cryptographic_usage_mask') is not None else None,
+                                        res.get('lease_time')) ==
+                (u2, count, [4, 8] if ck_mask else [], lease) else 'returned %r, the response carries %r' % (res, (u2, count, ck_mask, lease)), ck_payload))
     if version >= E.KMIPVersion.KMIP_2_0:
         out.append(('set_attribute', lambda c: c.set_attribute(env['sympre'].uid, attribute_name='Sensitive', attribute_value=True),
                     lambda res, p: None if res == first(p, T.T_UNIQUE_IDENTIFIER) else 'returned %r' % (res,)))
@@ -357,6 +439,7 @@ def run_case(ctx, case):
                 for entry in calls(rng, env, version):
                     name, thunk, checker = entry[:3]
                     script = entry[3] if len(entry) > 3 else None
+                    reqcheck = entry[4] if len(entry) > 4 else None
                     mode = rng.choice(('plain', 'plain', 'fail', 'fail', 'fail-nomsg', 'status', 'truncate'))
                     planned = {}
                     if mode in ('fail', 'fail-nomsg', 'status'):
@@ -420,6 +503,15 @@ def run_case(ctx, case):
                         ctx.violation('%s|request-undecodable|%s' % (name, type(e).__name__),
                                       'the %s request the client emits under %s is rejected by the server decoder: %s'
                                       % (name, vname, e), detail)
+                    if reqcheck is not None:
+                        # the arguments of the call, field by field, in the request as it went over the wire
+                        ctx.count('request_arguments_checked')
+                        try:
+                            rp = reqcheck(req)
+                        except Exception as e:
+                            rp = 'request could not be examined (%s: %s)' % (type(e).__name__, e)
+                        if rp:
+                            ctx.violation('%s|request|arguments' % name, '%s under %s: %s' % (name, vname, rp), detail)
                     if mode == 'truncate':
                         ctx.count('truncations_checked')
                         ctx.cell(name, vname, 'truncate', type(raised).__name__ if raised else 'returned')
